@@ -65,7 +65,9 @@ mod imp {
                       /// mutates a global and ends without `return` (the call's value is null)
                       Bump0(String),
                       /// calls itself until the frame limit is reached
-                      Loop }
+                      Loop,
+                      /// a CLOSURE (made by a maker function of its own) that calls a global function
+                      Closure(String) }
     #[derive(Clone, Debug, PartialEq)]
     /// home: the name the function was declared under (every call passes arg_of(home), also through a variable that holds it)
     pub struct FnDef { pub home: String, pub tag: String, pub kind: FnKind }
@@ -111,6 +113,7 @@ mod imp {
                 FnKind::Apply => format!("fn {}(cb, x) {{ return cb(x) }}", name),
                 FnKind::Bump0(g) => format!("fn {}(x) {{ println(\"{}\"); {} = {} + x; let q = 0 }}", name, def.tag, g, g),
                 FnKind::Loop => format!("fn {}(x) {{ return {}({}) + 1 }}", name, name, arg_of(name)),
+                FnKind::Closure(t) => format!("fn mk{}(c) {{ return fn(x) {{ println(\"{}\"); return {}({}) + c }} }}\nlet mut {} = mk{}(0)", name, def.tag, t, arg_of(t), name, name),
             },
             Stmt::CopyFn { dst, src, fresh } => if *fresh { format!("let mut {} = {}", dst, src) } else { format!("{} = {}", dst, src) },
             Stmt::PrintVar { name } => format!("println({})", name),
@@ -145,6 +148,7 @@ mod imp {
                     _ => Err(()) },
                 FnKind::Boom | FnKind::Loop => Err(()),
                 FnKind::CallF(t, k) => match self.call(&t, arg_of(&t), out)? { Some(v) => Ok(Some(v + k)), None => Err(()) },
+                FnKind::Closure(t) => match self.call(&t, arg_of(&t), out)? { Some(v) => Ok(Some(v)), None => Err(()) },
                 FnKind::Apply => Err(()),
             }
         }
@@ -287,7 +291,7 @@ mod imp {
         }
         /// does a call of this function fail (division by zero), directly or in the function it calls?
         pub fn fails(&self, d: &FnDef) -> bool {
-            match &d.kind { FnKind::Boom | FnKind::Loop => true, FnKind::CallF(t, _) => self.o.fns.get(t).map(|x| self.fails(x)).unwrap_or(true), _ => false }
+            match &d.kind { FnKind::Boom | FnKind::Loop => true, FnKind::CallF(t, _) | FnKind::Closure(t) => self.o.fns.get(t).map(|x| self.fails(x)).unwrap_or(true), _ => false }
         }
         fn pick(&mut self, v: &[String]) -> String { v[self.rng.below(v.len() as u64) as usize].clone() }
         fn good_stmt(&mut self, defined_here: &mut HashSet<String>, assigned_here: &mut HashSet<String>) -> Option<Stmt> {
@@ -307,6 +311,14 @@ mod imp {
             } else if r < 44 {
                 // a function that calls another global function (names c<N>; never redefined, never a callee: no cycles)
                 let callees: Vec<String> = { let mut v: Vec<String> = self.o.fns.keys().filter(|n| n.starts_with('f')).cloned().collect(); v.sort(); v };
+                if !callees.is_empty() && self.rng.chance(1, 6) {
+                    // a closure that calls a global function (names k<N>: never redefined)
+                    let name = self.fresh("k");
+                    defined_here.insert(name.clone());
+                    let tag = self.fresh("T");
+                    let t = self.pick(&callees);
+                    return Some(Stmt::Def { name: name.clone(), def: FnDef { home: name.clone(), tag, kind: FnKind::Closure(t) } });
+                }
                 if !callees.is_empty() && self.rng.chance(1, 4) {
                     let name = self.fresh("c");
                     defined_here.insert(name.clone());
@@ -381,7 +393,7 @@ mod imp {
                 FnKind::BumpG(g) | FnKind::Bump0(g) => matches!(vars.get(g), Some((Val::Int(_), true))),
                 _ => true });
             let names: HashSet<String> = self.o.fns.keys().cloned().collect();
-            self.o.fns.retain(|_, d| match &d.kind { FnKind::CallF(t, _) => names.contains(t), _ => true });
+            self.o.fns.retain(|_, d| match &d.kind { FnKind::CallF(t, _) | FnKind::Closure(t) => names.contains(t), _ => true });
         }
         pub fn step(&mut self, first: bool, flush: bool) -> Step {
             if first {
@@ -425,6 +437,23 @@ mod imp {
                         return Step::Host { f, arg, cached: self.rng.chance(1, 3), extra: false };
                     }
                     return Step::HostSet { name, val };
+                }
+            }
+            // directed: a closure of an earlier input calls a global function; this input rebinds that function and, in the
+            // same input, calls the closure THROUGH A VALUE from a function without globals of its own
+            if self.rng.chance(1, 8) {
+                let ks: Vec<(String, String)> = { let mut v: Vec<(String, String)> = self.o.fns.iter().filter_map(|(k, d)| match &d.kind { FnKind::Closure(t) if k.starts_with('k') => Some((k.clone(), t.clone())), _ => None }).collect(); v.sort(); v };
+                let appliers: Vec<String> = { let mut v: Vec<String> = self.o.fns.iter().filter(|(_, d)| d.kind == FnKind::Apply).map(|(k, _)| k.clone()).collect(); v.sort(); v };
+                if !ks.is_empty() && !appliers.is_empty() {
+                    let (k, t) = ks[self.rng.below(ks.len() as u64) as usize].clone();
+                    let a = self.pick(&appliers);
+                    let tag = self.fresh("T");
+                    let newdef = FnDef { home: t.clone(), tag, kind: FnKind::AddK(self.rng.range_i64(1, 20)) };
+                    let arg = arg_of(&k);
+                    let mut stmts = vec![Stmt::Def { name: t.clone(), def: newdef }, Stmt::PrintApply { a: a.clone(), f: k.clone(), arg }];
+                    if self.rng.chance(1, 2) { stmts.push(Stmt::PrintApply { a, f: k.clone(), arg }); }
+                    if self.rng.chance(1, 2) { stmts.push(Stmt::PrintCall { f: k, arg }); }
+                    return Step::Input { stmts, expect: Expect::Ok };
                 }
             }
             let mut defined_here = HashSet::new();
@@ -500,6 +529,15 @@ mod imp {
         }
         out
     }
+    /// the layout of the code a global denotes (a function, or the inner function of a closure)
+    pub fn layout_of_global(vm: &VM, name: &str) -> Option<Lay> {
+        let p = vm.get_global(name)?.as_ptr()?;
+        match &vm.heap().get(GcRef::new(p))?.kind {
+            ObjectKind::Function(f) => Some(lay_of(&f.function)),
+            ObjectKind::Closure(c) => match &vm.heap().get(c.function)?.kind { ObjectKind::Function(f) => Some(lay_of(&f.function)), _ => None },
+            _ => None,
+        }
+    }
     pub fn function_at(vm: &VM, idx: usize) -> Option<Function> {
         match vm.heap().get(GcRef::new(idx)) { Some(o) => match &o.kind { ObjectKind::Function(f) => Some(f.function.clone()), _ => None }, None => None }
     }
@@ -570,6 +608,12 @@ mod imp {
                 if !failed { ops.push("OReturn".into()); }
                 (ops, failed)
             }
+            FnKind::Closure(t) => {
+                let _ = arg; let (inner, failed) = emit_call(t, arg_of(t), add, fns, fn_lay, names, problems, None);
+                ops.extend(inner);
+                if !failed { ops.push("OReturn".into()); }
+                (ops, failed)
+            }
             FnKind::Apply => { problems.push(format!("{} is called without a function argument", f)); (ops, false) }
         }
     }
@@ -619,7 +663,7 @@ mod imp {
             FnKind::Bump0(g) => (1, vec![tag, format!("IAdd {}%N {}", names.id(g), zc(a)), "IOut 6000000".to_string()]),
             FnKind::Loop => (1, vec![format!("ICall (CGlobal {}%N) 1%N None", names.id(name))]),
             FnKind::Boom => (1, vec![tag, "IFail".to_string()]),
-            FnKind::CallF(t, _) => (1, vec![tag, format!("ICall (CGlobal {}%N) 1%N None", names.id(t))]),
+            FnKind::CallF(t, _) | FnKind::Closure(t) => (1, vec![tag, format!("ICall (CGlobal {}%N) 1%N None", names.id(t))]),
             FnKind::Apply => (2, vec!["ICall CArg 1%N None".to_string()]),
         }
     }
@@ -743,8 +787,8 @@ mod imp {
                                     Stmt::Let { name, val, .. } => s_body.push(format!("ISet {}%N (VInt {})", names.id(name), zc(code_of_val(val)))),
                                     Stmt::SetLit { name, val } => s_body.push(format!("ISet {}%N (VInt {})", names.id(name), zc(*val))),
                                     Stmt::AddTo { name, k } => s_body.push(format!("IAdd {}%N {}", names.id(name), zc(*k))),
-                                    Stmt::Def { name, def } => match unit_lay.get(name) {
-                                        Some(l) => { let ls = sx.layout(l, &mut names, &mut problems); let (ar, b) = fn_body(name, def, &mut names); let fid = sx.add_fn(ls, ar, b);
+                                    Stmt::Def { name, def } => match unit_lay.get(name).cloned().or_else(|| if matches!(def.kind, FnKind::Closure(_)) { layout_of_global(&vm, name) } else { None }) {
+                                        Some(l) => { let l = &l; if matches!(def.kind, FnKind::Closure(_)) { fn_lay.insert(name.clone(), l.clone()); } let ls = sx.layout(l, &mut names, &mut problems); let (ar, b) = fn_body(name, def, &mut names); let fid = sx.add_fn(ls, ar, b);
                                                      s_body.push(format!("IDef {}%N {}%N", names.id(name), fid)); }
                                         None => sx.fail(format!("no nested function {}", name)),
                                     },
